@@ -684,6 +684,15 @@ def _b(x):
 
 
 def params():
+    try:
+        return _params()
+    except TranslateError:
+        raise
+    except Exception as exc:      # import errors, unexpected AST shapes hitting an index/attribute error: fail closed
+        raise TranslateError(f"translator crashed on the source: {exc.__class__.__name__}: {exc}")
+
+
+def _params():
     classes = _Classes()
     tcp = _src(SRC + "servers/async_tcp.py")
     suppress = _tr_tcp_suppress(tcp, classes)
